@@ -28,6 +28,15 @@ Theorem C03_draw_ok_any_order : forall w count bs order cs,
 Proof. exact draw_ok. Qed.
 Print Assumptions C03_draw_ok_any_order.
 
+(** "drawn from the WHOLE extended square": no cell is excluded by construction — for every cell there is a stream prefix
+    after which, however the stream continues, the drawn set contains that cell. (Unpredictability and uniformity of
+    crypto/rand itself are outside the model; the check reports a chi-square statistic over real draws.) *)
+Theorem C03_draw_reaches_every_cell : forall w count r c,
+  1 <= count -> 0 <= r < w -> 0 <= c < w ->
+  exists pre, forall more cs rest, select_random_samples w count (pre ++ more) = Some (cs, rest) -> In (r, c) cs.
+Proof. exact draw_reaches_every_cell. Qed.
+Print Assumptions C03_draw_reaches_every_cell.
+
 (** avail_sound — over every history and interleaving (any code variant [cf], any write-batch size, crashes and restarts
     included): at the step [e] at which call [t] for header [h] arrives at the verdict "available" (it is about to close its
     session with a nil error — the empty-square and outside-window shortcuts never get there), there is a set [av] of
